@@ -48,6 +48,7 @@ FIXTURE_SEED = {
     'FRESH': 'FR1-map-insert-new-keeps-left',
     'DROP': 'DR1-key-expire-root-drops-last-node',
     'ROOTTEST': 'RT1-set-delete-repair-root-parent-test',
+    'BYPASS': 'BP2-maptree-pred-fast-path-equal',
 }
 # second fixture for LIVE on the seg family
 EXTRA_FIXTURES = {'C03': ['L4-seg-expiry-le'], 'C16': ['L4-seg-expiry-le']}
